@@ -32,6 +32,7 @@ from .api import NpuLayout
 from .api import NpuOperation
 from .api import NpuOperationType
 from .api import NpuPadding
+from .api import NpuPoolingOp
 from .api import NpuQuantization
 from .api import NpuShape3D
 from .architecture_features import ArchitectureFeatures
@@ -411,6 +412,9 @@ def get_ifm_ofm_block_depth(arch: ArchitectureFeatures, npu_op: NpuBlockOperatio
     if npu_op.op_type == NpuOperationType.Conv2D:
         res = arch.calc_ifm_block_depth(npu_op.ifm.shape.depth, npu_op.ifm.data_type.size_in_bits())
         return res
+    if npu_op.op_type == NpuOperationType.Pooling and npu_op.sub_op_type == NpuPoolingOp.REDUCE_SUM:
+        # Every OFM element is the sum over the entire IFM depth
+        return npu_op.ifm.shape.depth
     return npu_op.ofm.shape.depth
 
 
